@@ -716,7 +716,12 @@ func withStepCap(cap int64, f func()) (n int64, capped bool) {
 			panic(abortUnit{"stepcap"})
 		}
 	})
-	defer func() { setHook(prev) }()
+	defer func() {
+		setHook(prev)
+		if prev == nil {
+			ambBetweenCalls()
+		}
+	}()
 	f()
 	return
 }
